@@ -1757,10 +1757,15 @@ def mon_C19_fnd(case):
     out = []
     import json as _json
     susp = {u: v.get("susp", False) for u, v in case.users.items()}
+    curtags = {u: list(v["tags"]) for u, v in case.users.items()}
     for i, (o, ln) in enumerate(zip(case.ops, case.lines)):
         w = o.split(" ")
-        if w[0] == "userstate" and len(w) > 2:
+        if w[0] == "userstate" and len(w) > 2 and ln.plain is None:
             susp[w[1]] = w[2] == "susp"
+        if ln.plain is None:
+            # the tags an account is found by are the ones its `me` topic holds after the last acknowledged {set tags}
+            for x, cm in ln.me.items():
+                curtags[x] = [t for t in (cm["tags"] or "").strip("[]").split(",") if t]
         if ln.plain is not None or len(w) < 3:
             continue
         sid = w[1]
@@ -1788,7 +1793,7 @@ def mon_C19_fnd(case):
             allq = set(req) | set(opt)
             lvl = case.sess[sid]["lvl"]
             masked = [t for t in allq if ":" in t and t.split(":")[0] in MASKED_NS]
-            if masked and any(t not in case.users[u]["tags"] for t in masked) and not mine[0].startswith("ctrl 4"):
+            if masked and any(t not in curtags.get(u, []) for t in masked) and not mine[0].startswith("ctrl 4"):
                 out.append((i, f"C19 [masked] {u} searched by {masked}, tags of a masked namespace which {u} does not carry, and was answered `{mine[0][:60]}`"))
                 continue
             if not mine[0].startswith(("meta fnd sub[", "ctrl 204 ")):
@@ -1801,9 +1806,12 @@ def mon_C19_fnd(case):
                     shown[name] = [x.strip('"') for x in m.group(1).split(",")] if m and m.group(1) else []
             # what ought to be shown
             cand = {}
+            dels = case.deletions()
+            gone = {du: hard for k, (du, hard) in dels.items() if k < i}
             for x, v in case.users.items():
-                if x != u and not v.get("missing"):
-                    cand[x] = (v["tags"], susp.get(x, False))
+                if x != u and not v.get("missing") and not gone.get(x, False):
+                    # (a soft-deleted account keeps its row: hidden from everybody but root, like a suspended one)
+                    cand[x] = (curtags.get(x, v["tags"]), susp.get(x, False) or x in gone)
             for t, row in ln.store.items():
                 if t.startswith("P:"):
                     continue
@@ -1829,11 +1837,27 @@ def mon_C19(case):
     """the tags stored with a topic: normalised (lower case, sorted, no duplicates, 2..96 characters, first character a letter or a
     digit), changed only by a {set tags} of the owner, and never gaining or losing a tag of the immutable namespace `basic:`"""
     out = mon_C19_fnd(case)
+    acct = {u: list(v["tags"]) for u, v in case.users.items()}     # the tags of every account as last seen on its `me` topic
     for i, (o, ln) in enumerate(zip(case.ops, case.lines)):
         if ln.plain is not None:
             continue
         w = o.split(" ")
         pre = prev_state(case, i)
+        # … and the tags of an account (shown by its `me` topic while it is loaded): the same rules, changed only by the account itself
+        for u, cm in ln.me.items():
+            tags = [x for x in (cm["tags"] or "").strip("[]").split(",") if x]
+            ptags = acct.get(u, [])
+            if tags == ptags:
+                continue
+            acct[u] = tags
+            if tags != sorted(set(tags)) or any(x != x.lower().strip() or not (2 <= len(x) <= 96) or not x[0].isalnum() for x in tags):
+                out.append((i, f"C19 tags of the account {u} are stored as {tags}: not normalised"))
+            imm = lambda l: sorted(x for x in l if x.startswith("basic:"))
+            if imm(tags) != imm(ptags):
+                out.append((i, f"C19 tags of the immutable namespace of the account {u} changed from {imm(ptags)} to {imm(tags)} by `{w[0]}`"))
+            act = case.actor(w) if len(w) > 1 else None
+            if not (w[0] == "settags" and len(w) > 2 and w[2] == "me" and act is not None and act[0] == u):
+                out.append((i, f"C19 tags of the account {u} changed from {ptags} to {tags} by `{w[0]}` of {act[0] if act else '?'}"))
         for t, row in ln.store.items():
             tags = [x for x in (row["tags"] or "").strip("[]").split(",") if x]
             prow = pre.store.get(t) if pre else None
